@@ -236,6 +236,8 @@ inductive ParseOut
   | okField (i : Nat)
   /-- parsed; the root identifier is a call of function `i` -/
   | okFunction (i : Nat)
+  /-- parsed; the root of the filter is not a comparison (a unary operator) -/
+  | okOther
 deriving DecidableEq, Repr, Inhabited
 
 /-- `skip_space`: `SPACE_CHARS = [' ', '\r', '\n']` -/
@@ -293,15 +295,45 @@ def parseValue (s : Scheme) (text : List Char) : ParseOut :=
     | .ok (_, _, _ :: _) => .err
   out.shift (text.length - (trimStart text).length)
 
-/-- `Scheme::parse(text)` for the same texts, provided the trimmed text does not begin with
-a unary operator, `(` or a quantifier: a bare `Bool` identifier is the filter `IsTrue`; any
-other type needs a comparison operator (none follows in these texts) or is not `Bool`. -/
+/-- `LogicalExpr::lex_unary_op` (logical_expr.rs): `!` always; the word `not` unless it is
+directly followed by identifier characters (or `.`) AND the maximal dotted name starting at the
+`n` is registered — `notes` is the field `notes`, never `not es`; an unregistered `nott` is
+still `not t`. Returns the rest after the operator. -/
+def unaryPrefix (s : Scheme) (t : List Char) : Option (List Char) :=
+  match t with
+  | '!' :: r => some r
+  | 'n' :: 'o' :: 't' :: r =>
+    let glued :=
+      match r with
+      | c :: _ => isIdentChar c || c == '.'
+      | [] => false
+    let registered :=
+      match resolve s t with
+      | .found _ _ _ => true
+      | _ => false
+    if glued && registered then none else some r
+  | _ => none
+
+/-- strips unary operators (each followed by `skip_space`); fuel = length of the text -/
+def stripUnary (s : Scheme) : Nat → List Char → Nat → List Char × Nat
+  | 0, t, k => (t, k)
+  | fuel + 1, t, k =>
+    match unaryPrefix s t with
+    | some r => stripUnary s fuel (skipSpace r) (k + 1)
+    | none => (t, k)
+
+/-- `Scheme::parse(text)` for the same texts, possibly behind unary operators (`!`, `not`),
+provided the operand does not begin with `(` or a quantifier: a bare `Bool` identifier is the
+filter `IsTrue`; any other type needs a comparison operator (none follows in these texts) or is
+not `Bool`. A filter with a unary operator at the root is reported as `okOther`. -/
 def parseFilter (s : Scheme) (text : List Char) : ParseOut :=
+  let t := trim text
+  let (operand, k) := stripUnary s t.length t 0
   let out :=
-    match lexIndexExpr s (trim text) with
+    match lexIndexExpr s operand with
     | .error e => e
-    | .ok (it, some .bool, []) => it.out
+    | .ok (it, some .bool, []) => if k = 0 then it.out else .okOther
     | .ok _ => .err
-  out.shift (text.length - (trimStart text).length)
+  out.shift ((text.length - (trimStart text).length) + (t.length - operand.length))
 
 end WfModel.Scheme
